@@ -428,8 +428,11 @@ def rnd_op(rng, ref, stats):
             return 'cmp:' + rng.choice('DS') + bytes(y).hex()
         return f'cmp:{rnd_arg(rng)}'
     if o == 'cmpc':
-        if rng.random() < 0.5:
-            return 'cmpc:B' + ref.x[:rng.randint(0, n)].hex()
+        r = rng.random()
+        if r < 0.3:
+            return 'cmpc:B' + ref.x[:rng.randint(0, n)].hex()            # a prefix of the contents
+        if r < 0.6 and b'\x00' not in ref.x:
+            return 'cmpc:B' + (ref.x + bytes(rng.choice(b'abXY 01') for _ in range(rng.randint(1, 3)))).hex()   # the contents are a strict prefix of the string
         return f'cmpc:{rnd_str(rng)}'
     if o == 'sch':
         c = rng.choice(ref.x) if ref.x and rng.random() < 0.7 else rng.randrange(256)
